@@ -78,3 +78,48 @@ def run_cases(cases: list[dict]) -> list[dict]:
             r["tb"] = traceback.format_exc()[-800:]
         out.append(r)
     return out
+
+
+def run_histories(cases: list[dict]) -> list[dict]:
+    """For each case {sm, steps}: one SourceMap object goes through the whole operation sequence (serialize, pretty, str,
+    rewrite_offsets, deserialize of its own text, equality); after every step its observable content is compared with a FRESH
+    object built from the same content going through that single step (the functional reading of the property, which is what
+    the Lean model states). Returns the first step at which they differ."""
+    from explorerscript.source_map import SourceMap
+    out = []
+    for c in cases:
+        r: dict = {"steps": len(c["steps"])}
+        try:
+            m = sm_from_wire(c["sm"])
+            for i, st in enumerate(c["steps"]):
+                before = sm_to_wire(m)
+                fresh = sm_from_wire(copy.deepcopy(before))
+                op = st[0]
+                if op == "ser":
+                    a, b = m.serialize(), fresh.serialize()
+                elif op == "pretty":
+                    a, b = m.serialize(pretty=True), fresh.serialize(pretty=True)
+                elif op == "str":
+                    a, b = str(m), str(fresh)
+                elif op == "rewrite":
+                    f = {k: v for k, v in st[1]}
+                    m.rewrite_offsets(dict(f))
+                    fresh.rewrite_offsets(dict(f))
+                    a, b = sm_to_wire(m), sm_to_wire(fresh)
+                elif op == "reread":
+                    # store and read back: the map read back must have the content the object has NOW
+                    a, b = sm_to_wire(SourceMap.deserialize(m.serialize())), before
+                elif op == "eq":
+                    a, b = [bool(m == fresh), bool(fresh == m), bool(m != fresh)], [True, True, False]
+                else:
+                    raise ValueError(op)
+                if a != b:
+                    r["diverged"] = {"step": i, "op": op, "history_object": a if not isinstance(a, str) else a[:2000],
+                                     "fresh_object": b if not isinstance(b, str) else b[:2000]}
+                    break
+        except BaseException as e:  # noqa
+            import traceback
+            r["exc"] = type(e).__name__ + ": " + str(e)[:200]
+            r["tb"] = traceback.format_exc()[-800:]
+        out.append(r)
+    return out
